@@ -83,7 +83,8 @@ CLAIMED = {
         text="Coq theorems about a model of WSGIWrapper: the body limit is exact for every segmentation of the body, "
              "the environ (path split by root_path, CONTENT_*/HTTP_* with repeated headers comma-joined in order) for "
              "every scope, pass-through of status/headers/chunks for eager and lazy start_response, close() exactly "
-             "once for every application shape. Tied to the code by differential execution through the real asyncio "
+             "once for every application shape, and no call at all for a client that disconnects before its body is "
+             "complete (finding F59, repaired). Tied to the code by differential execution through the real asyncio "
              "and trio WSGI middleware (real executor threads) and a PEP 3333 oracle.",
         design="7/C17",
         note="Trusted: Coq kernel + vm_compute, harness/c17.py; thread pool plumbing is asyncio's/trio's; 'off the "
